@@ -640,8 +640,23 @@ class Prefix:
             return IdentityPrefix
 
         key = (base, exponent)
-        if key in cls._known:
-            return cls._known[key]
+        existing = cls._known.get(key)
+
+        # a name or symbol belongs to one prefix, and a prefix has one name and symbol;
+        # check before anything is interned so that a refused declaration changes nothing
+        if name:
+            if cls._by_name.get(name, existing) is not existing:
+                raise ValueError(f"A prefix named {name} is already defined")
+            if existing is not None and existing.name not in (None, name):
+                raise ValueError(f"{existing!r} is already named {existing.name}")
+        if symbol:
+            if cls._by_symbol.get(symbol, existing) is not existing:
+                raise ValueError(f"A prefix with symbol {symbol} is already defined")
+            if existing is not None and existing.symbol not in (None, symbol):
+                raise ValueError(f"{existing!r} already has the symbol {existing.symbol}")
+
+        if existing is not None:
+            return existing
 
         self = super().__new__(cls)
         self._initialized = False
@@ -656,6 +671,14 @@ class Prefix:
         symbol: Optional[str] = None,
     ) -> None:
         if self._initialized:
+            # a prefix first created anonymously (by arithmetic, or without a name)
+            # takes the name and symbol it is declared with later
+            if name and not self.name:
+                self.name = name
+                self._by_name[name] = self
+            if symbol and not self.symbol:
+                self.symbol = symbol
+                self._by_symbol[symbol] = self
             return
 
         self.base = base
